@@ -227,4 +227,69 @@ theorem exEn_last_exited (far : Fid) (ns fs : List Fid) (m : Fid) (hen : (exEn f
       simp [this]
     exact List.mem_of_getLast? this
 
+theorem take_eq_of_agree' (ns fs : List Fid) (i : Nat)
+    (h : ∀ j, j < i → ns[j]? = fs[j]?) : ns.take i = fs.take i := by
+  apply List.ext_getElem?
+  intro j
+  simp only [List.getElem?_take]
+  by_cases hj : j < i
+  · simp [hj, h j hj]
+  · simp [hj]
+
+/-- when something is entered, `ExEn` splits both outlines at one index below which they agree -/
+theorem exEn_decomp (far : Fid) (ns fs : List Fid) (hen : (exEn far ns fs).2.1 ≠ []) :
+    ∃ k, (exEn far ns fs).1 = ns.drop k ∧ (exEn far ns fs).2.1 = fs.drop k ∧ (exEn far ns fs).2.2 = ns.take k ∧
+      ns.take k = fs.take k := by
+  cases hs : stopIndex far ns fs with
+  | none =>
+    rw [exEn_of_noStop far ns fs hs] at hen
+    exact absurd rfl hen
+  | some k =>
+    refine ⟨k, ?_, ?_, ?_, ?_⟩
+    · rw [exEn_of_stop far ns fs k hs]
+    · rw [exEn_of_stop far ns fs k hs]
+    · rw [exEn_of_stop far ns fs k hs]
+    · apply take_eq_of_agree'
+      intro j hj
+      have hl := stopIndex_lt far ns fs k hs
+      have := (not_stopAt_iff far ns fs j (by omega) (by omega)).1 (stopIndex_first far ns fs k hs j hj)
+      simp [List.getElem?_eq_getElem (show j < ns.length by omega),
+        List.getElem?_eq_getElem (show j < fs.length by omega), this.1]
+
+/-- bookkeeping of a transition on "entered" flags: start from "entered iff on `ns`", clear the exits
+(`ns.drop k`), set the enters (`fs.drop k`); with a common prefix of length `k` the result is "entered iff on `fs`" -/
+theorem entered_after_transit (ns fs : List Fid) (k : Nat) (hn : ns.Nodup) (hf : fs.Nodup)
+    (hpre : ns.take k = fs.take k) (e0 e1 e2 : Fid → Bool) (f : Fid)
+    (h0 : e0 f = true ↔ f ∈ ns)
+    (h1 : (f ∈ ns.drop k → e1 f = false) ∧ (f ∉ ns.drop k → e1 f = e0 f))
+    (h2 : (f ∈ fs.drop k → e2 f = true) ∧ (f ∉ fs.drop k → e2 f = e1 f)) :
+    e2 f = true ↔ f ∈ fs := by
+  have hns : f ∈ ns ↔ f ∈ ns.take k ∨ f ∈ ns.drop k := by
+    rw [← List.mem_append, List.take_append_drop]
+  have hfs : f ∈ fs ↔ f ∈ fs.take k ∨ f ∈ fs.drop k := by
+    rw [← List.mem_append, List.take_append_drop]
+  have hnd : f ∈ ns.take k → f ∉ ns.drop k := by
+    intro h1' h2'
+    have := hn
+    rw [← List.take_append_drop k ns] at this
+    exact (List.nodup_append.1 this).2.2 f h1' f h2' rfl
+  have hfd : f ∈ fs.take k → f ∉ fs.drop k := by
+    intro h1' h2'
+    have := hf
+    rw [← List.take_append_drop k fs] at this
+    exact (List.nodup_append.1 this).2.2 f h1' f h2' rfl
+  by_cases he : f ∈ fs.drop k
+  · rw [h2.1 he]; simp [hfs, he]
+  · rw [h2.2 he]
+    by_cases hx : f ∈ ns.drop k
+    · rw [h1.1 hx]
+      constructor
+      · intro h; cases h
+      · intro hin
+        rcases hfs.1 hin with ht | hd
+        · rw [← hpre] at ht; exact absurd hx (hnd ht)
+        · exact absurd hd he
+    · rw [h1.2 hx, h0, hns, hfs, hpre]
+      simp [hx, he]
+
 end Ioflo.Outline
